@@ -158,7 +158,7 @@ func c02Box(c *vf.Check) {
 
 // C03: local state and lexical scoping survive suspension.
 func C03(c *vf.Check) {
-	runFam(c, famSpec{id: "C03", fam: "scope", name: "F_scope", sizeQ: "3", sizeT: "4", tapeQ: "3", tapeT: "4", callsQ: 5, callsT: 6,
+	runFam(c, famSpec{id: "C03", fam: "scope", name: "F_scope", sizeQ: "3", sizeT: "4", tapeQ: "3", tapeT: "3", callsQ: 5, callsT: 6,
 		keys: fullKeys, lazyT: true,
 		rule:   "every program of F_scope up to MaxSize: shadowing declarations a := a + 10 in nested blocks and in if / switch / for initialisers, a++ (also as post statement), a closure f := func() { a += 100 } created before any yield and called after, effects and yields observing the variables in scope; x every tape; non-trivial as in C01",
 		assume: []string{"no closure captures a three-clause loop variable across iterations (the only place where go<=1.21 and go>=1.22 scoping differ)"}})
